@@ -118,7 +118,7 @@ def run_retry(case: dict, prop: str, classes: set[str]) -> Outcome:
 
         products: list = []
 
-        async def factory() -> Any:
+        async def body() -> Any:
             st["calls"] += 1
             n = st["calls"]
             await checkpoints(case["cps"])
@@ -128,6 +128,12 @@ def run_retry(case: dict, prop: str, classes: set[str]) -> Outcome:
             products.append(o)
             await checkpoints(case["cps"])
             return o
+
+        def factory() -> Any:
+            # (an async factory that is not an `async def`: every invocation is counted, whether or not
+            # the awaitable it returns is ever awaited)
+            st["invoked"] = st.get("invoked", 0) + 1
+            return body()
 
         async def one(ctx: Any, k: int, results: list) -> None:
             await checkpoints(k * case["stagger"])
@@ -171,6 +177,9 @@ def run_retry(case: dict, prop: str, classes: set[str]) -> Outcome:
                 return
             if len(broken) != 1:
                 disc("generation", "failure-seen-by", f"{len(broken)} lookups raised the factory's error; only the one that ran the failing call may")
+            if st.get("invoked", 0) != st["calls"]:
+                disc("generation", "factory-invoked-not-run", f"the factory callback was invoked {st.get('invoked', 0)} times but only "
+                     f"{st['calls']} of the awaitables it returned were ever run")
             if len(products) != 1 or st["calls"] != 2:
                 disc("generation", "factory-calls", f"the factory was called {st['calls']} times and produced {len(products)} objects; after one "
                      f"failed call exactly one more call may happen for the context")
